@@ -15,6 +15,9 @@ RULES = [
     ("kFlowDecomp", r".*", r".*", ["C02"]),
     ("kFlowDecompCycles", r".*", r".*", ["C02"]),
     ("kFlowDecomp", r"given_weights", r".*", ["C05"]),
+    ("kFlowDecomp", r"given_weights", r"max_paths_original_k", ["C01"]),
+    ("kLeastAbsErrors", r"given_weights", r"max_paths_original_k", ["C01"]),
+    ("kMinPathError", r"given_weights", r"max_paths_original_k", ["C01"]),
     ("kFlowDecompCycles", r"given_weights", r".*", ["C05"]),
     ("kLeastAbsErrors", r".*", r".*", ["C07"]),
     ("kLeastAbsErrorsCycles", r".*", r".*", ["C07"]),
